@@ -37,6 +37,56 @@ Proof.
     + destruct (Nat.eqb k j); [reflexivity | exact IH].
 Qed.
 
+(* ---------- the registry ---------- *)
+Lemma enum_eqb_eq a b : enum_eqb a b = true -> a = b.
+Proof.
+  destruct a as [i q m], b as [i' q' m']. unfold enum_eqb. cbn. intro H.
+  apply andb_true_iff in H as [H H3]. apply andb_true_iff in H as [H1 H2].
+  apply Nat.eqb_eq in H1. apply String.eqb_eq in H2. apply kv_eqb_eq in H3. subst. reflexivity.
+Qed.
+
+Lemma kv_eqb_refl0 a : kv_eqb a a = true.
+Proof.
+  induction a as [|[k v] r IH]; [reflexivity|]. cbn. unfold pair_eqb. cbn.
+  rewrite !String.eqb_refl, IH. reflexivity.
+Qed.
+Lemma enum_eqb_refl a : enum_eqb a a = true.
+Proof. unfold enum_eqb. rewrite Nat.eqb_refl, String.eqb_refl, kv_eqb_refl0. reflexivity. Qed.
+
+Lemma resolve_kind_fixed bc reg k : kind_fixed bc reg k = true -> resolve_kind bc reg k = k.
+Proof.
+  destruct k as [| | | alts dk | sh e fo]; try reflexivity. cbn. intro H.
+  rewrite H. apply enum_eqb_eq in H. rewrite H. cbn. rewrite orb_false_r. reflexivity.
+Qed.
+
+(* a registry that hands every Enum of these dataclasses its own function is invisible to set-up *)
+Lemma resolve_fixed bc reg adds : adds_fixed bc reg adds = true -> resolve_adds bc reg adds = adds.
+Proof.
+  unfold adds_fixed, resolve_adds. induction adds as [|[c dest] r IH]; intro H; [reflexivity|].
+  cbn in H. apply andb_true_iff in H as [H1 H2]. cbn [map]. rewrite (IH H2). f_equal.
+  unfold resolve_add. cbn [fst snd]. destruct c as [cn fs]. cbn [d_cls d_fields] in *. f_equal. f_equal.
+  induction fs as [|fd fr IHf]; [reflexivity|].
+  cbn in H1. apply andb_true_iff in H1 as [Hk Hr]. cbn [map]. rewrite (IHf Hr). f_equal.
+  unfold resolve_fd. rewrite (resolve_kind_fixed bc reg _ Hk). destruct fd; reflexivity.
+Qed.
+
+(* keyed by the class object, the registry is unobservable: whatever it holds, every class gets its own function *)
+Lemma adds_fixed_by_class reg adds : adds_fixed true reg adds = true.
+Proof.
+  unfold adds_fixed. apply forallb_forall. intros ad _. apply forallb_forall. intros fd _.
+  destruct (f_kind fd); try reflexivity. cbn. apply enum_eqb_refl.
+Qed.
+Lemma resolve_by_class reg adds : resolve_adds true reg adds = adds.
+Proof. apply resolve_fixed. apply adds_fixed_by_class. Qed.
+(* ... and so is the empty registry of a fresh interpreter, whatever the key *)
+Lemma adds_fixed_nil bc adds : adds_fixed bc [] adds = true.
+Proof.
+  unfold adds_fixed. apply forallb_forall. intros ad _. apply forallb_forall. intros fd _.
+  destruct (f_kind fd); try reflexivity. cbn. destruct bc; cbn; apply enum_eqb_refl.
+Qed.
+Lemma resolve_nil bc adds : resolve_adds bc [] adds = adds.
+Proof. apply resolve_fixed. apply adds_fixed_nil. Qed.
+
 Section Hist.
   Variable f : facts.
   Variable ftbl : list (string * kv).
@@ -68,10 +118,24 @@ Section Hist.
   Lemma cached_some p su : cached p = Some su -> p_setup p = Some su.
   Proof. unfold History.cached. destruct (p_setup p); [destruct (setup_cached f)|]; congruence. Qed.
 
-  Lemma setup_g_own g p : b_spelling f g p = true -> cached p = None -> setup_g g p = p_cfg p.
+  Lemma setup_g_own g p : b_spelling f g p = true -> cached p = None -> gl_cfg (setup_g g p) = p_cfg p.
   Proof.
     unfold b_spelling, History.setup_g, is_cached. intros H Hc. rewrite Hc in *.
     destruct (reasserts f); [reflexivity|]. cbn in H. apply cfg_eqb_eq. exact H.
+  Qed.
+
+  Lemma setup_g_reg g p : gl_reg (setup_g g p) = gl_reg g.
+  Proof. unfold History.setup_g. destruct (cached p); [reflexivity|]. destruct (reasserts f); reflexivity. Qed.
+
+  (* under the two set-up clauses, set-up sees exactly the parser's own definition *)
+  Lemma setup_in_own g p live args :
+    b_spelling f g p = true -> b_registry f g p = true -> cached p = None ->
+    setup_in f (setup_g g p) p live args = do_setup (p_cfg p) (p_cr p) (p_adds p) live args.
+  Proof.
+    intros Hs Hr Hc. unfold setup_in. rewrite (setup_g_own g p Hs Hc), setup_g_reg. f_equal.
+    unfold b_registry, is_cached in Hr. rewrite Hc in Hr.
+    destruct (reg_by_class f) eqn:Hk; [apply resolve_by_class|].
+    cbn in Hr. apply resolve_fixed. exact Hr.
   Qed.
 
   Lemma do_setup_inv g cr adds live args su :
@@ -109,9 +173,9 @@ Section Hist.
 
   (* a parse keeps the invariant of its own parser *)
   Lemma parse_step_pinv g p argv :
-    pinv p -> b_spelling f g p = true -> pinv (snd (fst (parse_step g p argv))).
+    pinv p -> b_spelling f g p = true -> b_registry f g p = true -> pinv (snd (fst (parse_step g p argv))).
   Proof.
-    intros Hp Hb. pose proof Hp as [Ha Hs]. unfold History.parse_step.
+    intros Hp Hb Hr. pose proof Hp as [Ha Hs]. unfold History.parse_step.
     destruct (prep p argv) as [args [rl live1]].
     destruct rl as [u|e]; [|psimpl; split; [exact Ha | exact Hs]].
     destruct (p_cfgarg p && p_added p && cfgarg_every_parse f); [psimpl; split; [exact Ha | exact Hs]|].
@@ -119,19 +183,20 @@ Section Hist.
     - apply cached_some in Hc.
       destruct (History.parse_acts true (main_acts (p_added p || p_cfgarg p) su) _ args) as [r cnt1].
       psimpl. split; [intro H; exact (added_ok p Hp H)|]. rewrite Hc in Hs. exact Hs.
-    - rewrite (setup_g_own g p Hb Hc).
+    - rewrite (setup_in_own g p live1 args Hb Hr Hc).
       destruct (do_setup (p_cfg p) (p_cr p) (p_adds p) live1 args) as [su|e] eqn:Hd.
       + destruct (History.parse_acts true (main_acts (p_added p || p_cfgarg p) su) _ args) as [r cnt1].
         psimpl. split; [intro H; exact (added_ok p Hp H)|]. eapply do_setup_inv; exact Hd.
       + psimpl. split; [intro H; exact (added_ok p Hp H) | exact (after_failure_inv p live1 Hp)].
   Qed.
 
-  Lemma help_step_pinv g p : pinv p -> b_spelling f g p = true -> pinv (snd (fst (help_step g p))).
+  Lemma help_step_pinv g p :
+    pinv p -> b_spelling f g p = true -> b_registry f g p = true -> pinv (snd (fst (help_step g p))).
   Proof.
-    intros Hp Hb. pose proof Hp as [Ha Hs]. unfold History.help_step.
+    intros Hp Hb Hr. pose proof Hp as [Ha Hs]. unfold History.help_step.
     destruct (cached p) as [su|] eqn:Hc.
     - apply cached_some in Hc. psimpl. split; [exact Ha|]. rewrite Hc in Hs. exact Hs.
-    - rewrite (setup_g_own g p Hb Hc).
+    - rewrite (setup_in_own g p (p_live p) [] Hb Hr Hc).
       destruct (do_setup (p_cfg p) (p_cr p) (p_adds p) (p_live p) []) as [su|e] eqn:Hd; psimpl.
       + split; [exact Ha|]. eapply do_setup_inv; exact Hd.
       + split; [exact Ha | exact (after_failure_inv p (p_live p) Hp)].
@@ -160,14 +225,17 @@ Section Hist.
       rewrite Hfn. repeat split; try assumption. rewrite app_length. cbn. lia.
     - destruct (slot_get (st_slots s) i) as [p|] eqn:Hg; [|exact HI].
       cbn in Hb. rewrite Hg in Hb.
-      assert (Hsp : b_spelling f (st_g s) p = true).
-      { destruct (b_spelling f (st_g s) p); [reflexivity | discriminate]. }
-      pose proof (parse_step_pinv (st_g s) p argv (HI i p Hg) Hsp) as Hp'.
+      assert (Hsp : b_spelling f (st_g s) p = true /\ b_registry f (st_g s) p = true).
+      { destruct (b_spelling f (st_g s) p); [|discriminate].
+        destruct (b_registry f (st_g s) p); [split; reflexivity | discriminate]. }
+      destruct Hsp as [Hsp Hrg].
+      pose proof (parse_step_pinv (st_g s) p argv (HI i p Hg) Hsp Hrg) as Hp'.
       destruct (parse_step (st_g s) p argv) as [[g' p'] r]. cbn in *.
       apply set_inv; assumption.
     - destruct (slot_get (st_slots s) i) as [p|] eqn:Hg; [|exact HI].
       cbn in Hb. rewrite Hg in Hb.
-      pose proof (help_step_pinv (st_g s) p (HI i p Hg) Hb) as Hp'.
+      apply andb_true_iff in Hb as [Hb Hrg].
+      pose proof (help_step_pinv (st_g s) p (HI i p Hg) Hb Hrg) as Hp'.
       destruct (help_step (st_g s) p) as [[g' p'] ho]. cbn in *.
       apply set_inv; assumption.
     - destruct (slot_get (st_slots s) i); exact HI.
@@ -190,13 +258,13 @@ Section Hist.
 
   Lemma parse_obs_fresh g p argv :
     pinv p ->
-    b_spelling f g p = true -> b_cfgarg f p = true -> b_tuple f p = true ->
+    b_spelling f g p = true -> b_registry f g p = true -> b_cfgarg f p = true -> b_tuple f p = true ->
     b_frozen f ftbl p argv = true -> b_defaults f p = true ->
     snd (parse_step g p argv) = fresh (def_of p) argv.
   Proof.
-    intros Hp Hsp Hcf Htu Hfr Hde. pose proof Hp as [Ha Hs].
+    intros Hp Hsp Hrg Hcf Htu Hfr Hde. pose proof Hp as [Ha Hs].
     unfold History.fresh. change (df_cfg (def_of p)) with (p_cfg p).
-    set (q := new_p (def_of p)).
+    set (q := new_p (def_of p)). set (g0 := mkglob (p_cfg p) []).
     assert (Hprep : prep q argv = prep p argv) by (symmetry; apply prep_new; exact Hde).
     assert (Hq1 : p_cfg q = p_cfg p) by reflexivity.
     assert (Hq2 : p_cfgarg q = p_cfgarg p) by reflexivity.
@@ -206,13 +274,19 @@ Section Hist.
     assert (Hq5 : p_cnt q = []) by reflexivity.
     assert (Hq6 : p_added q = false) by reflexivity.
     assert (Hq7 : cached q = None) by reflexivity.
-    assert (Hown : setup_g (p_cfg p) q = p_cfg p).
-    { unfold History.setup_g. rewrite Hq7, Hq1. destruct (reasserts f); reflexivity. }
+    (* the fresh interpreter's set-up sees the definition itself: its registry is empty *)
+    assert (Hown : forall live args, setup_in f (setup_g g0 q) q live args
+                                     = do_setup (p_cfg p) (p_cr p) (p_adds p) live args).
+    { intros live args. unfold setup_in. rewrite setup_g_reg. unfold History.setup_g. rewrite Hq7, Hq1, Hq8, Hq3.
+      replace (gl_cfg (if reasserts f then mkglob (p_cfg p) (gl_reg g0) else g0)) with (p_cfg p)
+        by (destruct (reasserts f); reflexivity).
+      cbn [g0 gl_reg]. rewrite resolve_nil. reflexivity. }
     unfold History.parse_step.
-    rewrite Hprep, Hq1, Hq2, Hq8, Hq3, Hq4, Hq5, Hq6, Hq7, Hown.
-    clearbody q. clear Hprep Hq1 Hq2 Hq8 Hq3 Hq4 Hq5 Hq6 Hq7 Hown.
+    rewrite Hprep, Hq1, Hq2, Hq8, Hq3, Hq4, Hq5, Hq6, Hq7.
     unfold b_frozen in Hfr.
     destruct (prep p argv) as [args [rl live1]].
+    rewrite (Hown live1 args).
+    clearbody q g0. clear Hprep Hq1 Hq2 Hq8 Hq3 Hq4 Hq5 Hq6 Hq7 Hown.
     assert (Hc0 : (if tuple_counter_persists f then p_cnt p else []) = []).
     { unfold b_tuple in Htu. destruct (tuple_counter_persists f); [|reflexivity].
       cbn in Htu. destruct (p_cnt p); [reflexivity | discriminate]. }
@@ -236,7 +310,7 @@ Section Hist.
       rewrite Hdo.
       destruct (History.parse_acts true (main_acts (false || p_cfgarg p) su) [] args) as [r cnt1].
       reflexivity.
-    - rewrite (setup_g_own g p Hsp Hc).
+    - rewrite (setup_in_own g p live1 args Hsp Hrg Hc).
       destruct (do_setup (p_cfg p) (p_cr p) (p_adds p) live1 args) as [su|e]; [|reflexivity].
       destruct (History.parse_acts true (main_acts (false || p_cfgarg p) su) [] args) as [r cnt1].
       reflexivity.
@@ -259,7 +333,8 @@ Section Hist.
         cbn [op_benign] in Hb1. rewrite Hg in Hb1.
         apply andb_true_iff in Hb1 as [Hb1 H5]. apply andb_true_iff in Hb1 as [Hb1 H4].
         apply andb_true_iff in Hb1 as [Hb1 H3]. apply andb_true_iff in Hb1 as [H1 H2].
-        pose proof (parse_obs_fresh (st_g s) p argv (HI i p Hg) H1 H2 H3 H4 H5) as He.
+        apply andb_true_iff in H1 as [H1 H1r].
+        pose proof (parse_obs_fresh (st_g s) p argv (HI i p Hg) H1 H1r H2 H3 H4 H5) as He.
         destruct (parse_step (st_g s) p argv) as [[g' p'] rr]. cbn in He. cbn. rewrite He. reflexivity.
       + cbn [nth_error] in Hk. cbn [firstn History.run_ops] in Hg. cbn [obs_from nth_error].
         eapply IH; [apply step_inv; eassumption | exact Hb2 | exact Hk | exact Hg].
@@ -292,7 +367,7 @@ Section Hist.
     done_after_work f = true -> p_setup p = None ->
     match p_setup (snd (fst (parse_step g p argv))) with
     | None => True
-    | Some su => exists live args, do_setup (setup_g g p) (p_cr p) (p_adds p) live args = Ok su
+    | Some su => exists live args, setup_in f (setup_g g p) p live args = Ok su
     end.
   Proof.
     intros Hd Hn. assert (Hc : cached p = None) by (unfold History.cached; rewrite Hn; reflexivity).
@@ -300,7 +375,7 @@ Section Hist.
     destruct rl as [u|e]; [|psimpl; rewrite Hn; exact I].
     destruct (p_cfgarg p && p_added p && cfgarg_every_parse f); [psimpl; rewrite Hn; exact I|].
     rewrite Hc.
-    destruct (do_setup (setup_g g p) (p_cr p) (p_adds p) live1 args) as [su|e] eqn:Hdo.
+    destruct (setup_in f (setup_g g p) p live1 args) as [su|e] eqn:Hdo.
     - destruct (History.parse_acts true (main_acts (p_added p || p_cfgarg p) su) _ args) as [r cnt1].
       psimpl. exists live1, args. exact Hdo.
     - psimpl. unfold after_failure. rewrite Hd, Hn. exact I.
@@ -310,20 +385,49 @@ Section Hist.
     done_after_work f = true -> p_setup p = None ->
     match p_setup (snd (fst (help_step g p))) with
     | None => True
-    | Some su => do_setup (setup_g g p) (p_cr p) (p_adds p) (p_live p) [] = Ok su
+    | Some su => setup_in f (setup_g g p) p (p_live p) [] = Ok su
     end.
   Proof.
     intros Hd Hn. assert (Hc : cached p = None) by (unfold History.cached; rewrite Hn; reflexivity).
     unfold History.help_step. rewrite Hc.
-    destruct (do_setup (setup_g g p) (p_cr p) (p_adds p) (p_live p) []) as [su|e] eqn:Hdo; psimpl.
+    destruct (setup_in f (setup_g g p) p (p_live p) []) as [su|e] eqn:Hdo; psimpl.
     - reflexivity.
     - unfold after_failure. rewrite Hd, Hn. exact I.
+  Qed.
+
+  (* keyed by the class object, the registry is unobservable: whatever it holds, a parse answers the same and leaves
+     its parser in the same state *)
+  Lemma setup_in_reg_irrelevant c r1 r2 p live args :
+    reg_by_class f = true ->
+    setup_in f (setup_g (mkglob c r1) p) p live args = setup_in f (setup_g (mkglob c r2) p) p live args.
+  Proof.
+    intro H. unfold setup_in. rewrite H, !resolve_by_class. f_equal.
+    unfold History.setup_g. destruct (cached p); [reflexivity|]. destruct (reasserts f); reflexivity.
+  Qed.
+
+  Lemma registry_unobservable c r1 r2 p argv :
+    reg_by_class f = true ->
+    snd (parse_step (mkglob c r1) p argv) = snd (parse_step (mkglob c r2) p argv)
+    /\ snd (fst (parse_step (mkglob c r1) p argv)) = snd (fst (parse_step (mkglob c r2) p argv)).
+  Proof.
+    intro H. unfold History.parse_step.
+    destruct (prep p argv) as [args [rl live1]].
+    destruct rl as [u|e]; [|split; reflexivity].
+    destruct (p_cfgarg p && p_added p && cfgarg_every_parse f); [split; reflexivity|].
+    rewrite (setup_in_reg_irrelevant c r1 r2 p live1 args H).
+    destruct (cached p) as [su|].
+    - destruct (History.parse_acts true (main_acts (p_added p || p_cfgarg p) su) _ args) as [r cnt1].
+      split; reflexivity.
+    - destruct (setup_in f (setup_g (mkglob c r2) p) p live1 args) as [su|e]; [|split; reflexivity].
+      destruct (History.parse_acts true (main_acts (p_added p || p_cfgarg p) su) _ args) as [r cnt1].
+      split; reflexivity.
   Qed.
 
   (* every clause of `benign` is guarded by its switch: with all five repaired, every history is benign *)
   Lemma benign_when_repaired : all_repaired f = true -> forall ops s, benign_from f ftbl s ops = true.
   Proof.
     unfold all_repaired. intro H.
+    apply andb_true_iff in H as [H H6].
     apply andb_true_iff in H as [H H5]. apply andb_true_iff in H as [H H4].
     apply andb_true_iff in H as [H H3]. apply andb_true_iff in H as [H1 H2].
     apply negb_true_iff in H2, H3, H4, H5.
@@ -332,10 +436,10 @@ Section Hist.
     { intro p. unfold History.cached. rewrite H3. destruct (p_setup p); reflexivity. }
     destruct o as [i c ca | i d dest | i argv | i | i]; cbn [op_benign]; try reflexivity.
     - destruct (slot_get (st_slots s) i) as [p|]; [|reflexivity].
-      unfold b_spelling, b_cfgarg, b_tuple, b_frozen, b_defaults. rewrite H1, H2, H4, H5, (Hnc p).
+      unfold b_spelling, b_registry, b_cfgarg, b_tuple, b_frozen, b_defaults. rewrite H1, H2, H4, H5, H6, (Hnc p).
       cbn. rewrite !andb_false_r. reflexivity.
     - destruct (slot_get (st_slots s) i) as [p|]; [|reflexivity].
-      unfold b_spelling. rewrite H1. reflexivity.
+      unfold b_spelling, b_registry. rewrite H1, H6. reflexivity.
   Qed.
 End Hist.
 
@@ -412,8 +516,8 @@ Definition ops_spelling : list op :=
   [Construct 0 cfg_dash CRAuto false; AddArgs 0 K1 "a"; Construct 1 init_cfg CRAuto false; Parse 0 ["--my-x"; "4"]].
 Theorem refuted_spelling : forall f, reasserts f = false -> ~ history_full f FILES.
 Proof.
-  intros [r c s t d w] H; cbn in H; subst r.
-  destruct c, s, t, d, w; refute_with ops_spelling 3 0 ["--my-x"; "4"].
+  intros [r c s t d w k] H; cbn in H; subst r.
+  destruct c, s, t, d, w, k; refute_with ops_spelling 3 0 ["--my-x"; "4"].
 Qed.
 
 (* (#11) the second parse of a parser with a config-path argument re-adds --config_path *)
@@ -421,8 +525,8 @@ Definition ops_cfgarg : list op :=
   [Construct 0 init_cfg CRAuto true; AddArgs 0 K1 "a"; Parse 0 []; Parse 0 []].
 Theorem refuted_cfgarg : forall f, cfgarg_every_parse f = true -> ~ history_full f FILES.
 Proof.
-  intros [r c s t d w] H; cbn in H; subst c.
-  destruct r, s, t, d, w; refute_with ops_cfgarg 3 0 (@nil string).
+  intros [r c s t d w k] H; cbn in H; subst c.
+  destruct r, s, t, d, w, k; refute_with ops_cfgarg 3 0 (@nil string).
 Qed.
 
 (* (#12) the tuple converter's counter is past the item types on the second parse *)
@@ -430,8 +534,8 @@ Definition ops_tuple : list op :=
   [Construct 0 init_cfg CRAuto false; AddArgs 0 K3 "a"; Parse 0 ["--pair"; "3"; "x"]; Parse 0 ["--pair"; "3"; "x"]].
 Theorem refuted_tuple : forall f, setup_cached f = true -> tuple_counter_persists f = true -> ~ history_full f FILES.
 Proof.
-  intros [r c s t d w] H1 H2; cbn in H1, H2; subst s t.
-  destruct r, c, d, w; refute_with ops_tuple 3 0 ["--pair"; "3"; "x"].
+  intros [r c s t d w k] H1 H2; cbn in H1, H2; subst s t.
+  destruct r, c, d, w, k; refute_with ops_tuple 3 0 ["--pair"; "3"; "x"].
 Qed.
 
 (* (#13) the subgroup choice is frozen by the first argv ... *)
@@ -439,16 +543,16 @@ Definition ops_frozen_argv : list op :=
   [Construct 0 init_cfg CRAuto false; AddArgs 0 K4 "a"; Parse 0 ["--model"; "mb"]; Parse 0 ["--model"; "ma"]].
 Theorem refuted_frozen_by_argv : forall f, setup_cached f = true -> ~ history_full f FILES.
 Proof.
-  intros [r c s t d w] H; cbn in H; subst s.
-  destruct r, c, t, d, w; refute_with ops_frozen_argv 3 0 ["--model"; "ma"].
+  intros [r c s t d w k] H; cbn in H; subst s.
+  destruct r, c, t, d, w, k; refute_with ops_frozen_argv 3 0 ["--model"; "ma"].
 Qed.
 (* ... or by print_help() *)
 Definition ops_frozen_help : list op :=
   [Construct 0 init_cfg CRAuto false; AddArgs 0 K4 "a"; PrintHelp 0; Parse 0 ["--model"; "mb"]].
 Theorem refuted_frozen_by_help : forall f, setup_cached f = true -> ~ history_full f FILES.
 Proof.
-  intros [r c s t d w] H; cbn in H; subst s.
-  destruct r, c, t, d, w; refute_with ops_frozen_help 3 0 ["--model"; "mb"].
+  intros [r c s t d w k] H; cbn in H; subst s.
+  destruct r, c, t, d, w, k; refute_with ops_frozen_help 3 0 ["--model"; "mb"].
 Qed.
 
 (* (#5') defaults read from a config file by a call that failed are still there in the next call *)
@@ -456,8 +560,8 @@ Definition ops_defaults : list op :=
   [Construct 0 init_cfg CRAuto true; AddArgs 0 K1 "a"; Parse 0 ["--config_path"; "c1.json"; "nofile.json"]; Parse 0 []].
 Theorem refuted_defaults : forall f, defaults_persist f = true -> ~ history_full f FILES.
 Proof.
-  intros [r c s t d w] H; cbn in H; subst d.
-  destruct r, c, s, t, w; refute_with ops_defaults 3 0 (@nil string).
+  intros [r c s t d w k] H; cbn in H; subst d.
+  destruct r, c, s, t, w, k; refute_with ops_defaults 3 0 (@nil string).
 Qed.
 
 (* (seeded C08-03) the done-flag set before the work: a set-up that raised (invalid subgroup key) is never redone *)
@@ -465,14 +569,29 @@ Definition ops_failed_setup : list op :=
   [Construct 0 init_cfg CRAuto false; AddArgs 0 K4 "a"; Parse 0 ["--model"; "zz"]; Parse 0 []].
 Theorem refuted_failed_setup : forall f, setup_cached f = true -> done_after_work f = false -> ~ history_full f FILES.
 Proof.
-  intros [r c s t d w] H1 H2; cbn in H1, H2; subst s w.
-  destruct r, c, t, d; refute_with ops_failed_setup 3 0 (@nil string).
+  intros [r c s t d w k] H1 H2; cbn in H1, H2; subst s w.
+  destruct r, c, t, d, k; refute_with ops_failed_setup 3 0 (@nil string).
 Qed.
 (* ... likewise a ConflictResolutionError (NONE mode, two dataclasses sharing a field name): raised once, then gone *)
 Definition ops_failed_setup_cre : list op :=
   [Construct 0 init_cfg CRNone false; AddArgs 0 K1 "a"; AddArgs 0 L3 "b"; Parse 0 []; Parse 0 []].
 Theorem refuted_failed_setup_cre : forall f, setup_cached f = true -> done_after_work f = false -> ~ history_full f FILES.
 Proof.
-  intros [r c s t d w] H1 H2; cbn in H1, H2; subst s w.
-  destruct r, c, t, d; refute_with ops_failed_setup_cre 4 0 (@nil string).
+  intros [r c s t d w k] H1 H2; cbn in H1, H2; subst s w.
+  destruct r, c, t, d, k; refute_with ops_failed_setup_cre 4 0 (@nil string).
+Qed.
+
+(* (seeded C08-04) the registry keyed by the qualified NAME: a second class with its own `Mode` enum is parsed with
+   the first class's function - SLOW comes back with the first enum's value, tagged as not the declared class *)
+Definition MODE1 : enumdef := mkenum 1 "c08cls.Mode" [("FAST", "1"); ("SLOW", "2")].
+Definition MODE2 : enumdef := mkenum 2 "c08cls.Mode" [("SLOW", "1"); ("SAFE", "2")].
+Definition E1 := mkdc "E1" [mkf "my_x" FInt "int:1"; mkf "modes" (FEnum EList MODE1 false) "list()"].
+Definition E2 := mkdc "E2" [mkf "my_x" FInt "int:1"; mkf "modes" (FEnum EList MODE2 false) "list()"].
+Definition ops_registry : list op :=
+  [Construct 0 init_cfg CRAuto false; AddArgs 0 E1 "a"; Parse 0 ["--modes"; "FAST"; "SLOW"];
+   Construct 1 init_cfg CRAuto false; AddArgs 1 E2 "a"; Parse 1 ["--modes"; "SLOW"]].
+Theorem refuted_registry : forall f, reg_by_class f = false -> ~ history_full f FILES.
+Proof.
+  intros [r c s t d w k] H; cbn in H; subst k.
+  destruct r, c, s, t, d, w; refute_with ops_registry 5 1 ["--modes"; "SLOW"].
 Qed.
